@@ -53,6 +53,9 @@ func GenC04(seed uint64, run int) *Trace {
 	if r.Chance(1, 10) {
 		cfg.MaxSection = 200 // a small read-side section limit on a writable store
 	}
+	if cfg.Store == "rw" {
+		cfg.SameHandle = r.Chance(1, 4) // the caller owns the file handle (OpenReadWriteFile): it stays open after Discard/Finalize
+	}
 	t := &Trace{Prop: "C04", Engine: "session", Seed: seed, Run: run, Cfg: cfg}
 	alpha := genAlphabet(r, r.Range(2, 6), r.Chance(1, 8))
 	n := r.Range(1, 30)
@@ -66,7 +69,7 @@ func GenC04(seed uint64, run int) *Trace {
 		if restarts && !closedBias && r.Chance(1, 8) {
 			rop := Op{Kind: Pick(r, []string{"restart_clean", "restart_final"})}
 			if r.Chance(1, 3) {
-				rop.Arg = 1 // reopen with the same roots in another order
+				rop.Arg = Pick(r, []int{1, 1, 2}) // reopen with the same roots in another order / with a tighter index CID limit
 			}
 			t.Ops = append(t.Ops, rop)
 			continue
